@@ -137,6 +137,12 @@ register('C14', [
     'Registry::new from a Fleet (group construction by the user-supplied key function), deep_slice with a filter other than the production one (membership in a set of kept actors), RegistryContext::new (needs a GoalContext)',
     'the earlier Kani harnesses over Tour (kani/vrp-core/tour_proofs.rs) exceed memory and are not part of the check',
 ])
+register('C02', [
+    'job-accounting KERNELS only (not solves): (1) the insertion step apply_insertion_success from a consistent context (2 actors, jobs X in a tour, Y required, Z unassigned, J with 1-2 tasks to insert; actor and legs symbolic; J symbolically still listed as unassigned): J ends in exactly one tour with all tasks in order and nowhere else, a fresh tour is opened exactly for the fresh actor, vehicle available <=> no tour uses it; (2) finalize_insertion_ctx: required jobs become unassigned, once; (3) InsertionContext -> Solution: unassigned = every job that is in no tour, once, tours copied; (4) create_insertion_context_from_solution (C14); (5) the writer create_unassigned: each unassigned customer job written once with at least one reason, vehicles grouped per code',
+    'goal callbacks (accept_insertion / accept_solution_state) are environment no-ops; hash containers as association lists keyed by identity',
+], [
+    'the search operators (ruin, recreate, local search, decomposition), clustering (vicinity) and everything else that needs solver runs; breaks / reloads / recharge stops corresponding to the definitions of the vehicle shift; the tour side of the writer beyond C03',
+])
 register('C17', [
     'density clustering only: create_clusters (DBSCAN) on 2-3 points with a FULLY symbolic neighbourhood relation (one Bool per ordered pair, not necessarily symmetric or reflexive) and min_points 1..3: clusters pairwise disjoint and duplicate-free, first point of a cluster is a core point, every member density-reachable from it, no core point unclustered',
     'hash map / hash set of create_clusters as association lists keyed by point identity (hashing and iteration order not modelled); the neighbourhood function is the environment',
